@@ -249,6 +249,17 @@ def h_general(ctx, n, per_mode=False):
     for k in range(2):
         got = sum((A[k][0, i, 0] * Tq[i] for i in range(n)), 0)
         ctx.claim(f'span_function_reproduced_mode{k}', ctx.eq(got, polyval(c, xq)))
+    if not per_mode:
+        # the fitted coefficients evaluated through func_get with the same custom basis, on a box other
+        # than [-1, 1]: the basis functions are functions of the raw coordinates
+        xr = ctx.real('xr')
+        for v in (xq, xr):
+            ctx.assume(ctx.ge(v, -3))
+            ctx.assume(ctx.le(v, 5))
+        got = teneva.func_get(np.array([[xq, xr]], dtype=X.dtype), A, a=-3., b=5., funcs=basis)
+        ctx.claim('custom_basis_evaluated_at_raw_points', ctx.eq(got[0], polyval(c, xq) * polyval(c, xr)))
+        got1 = teneva.func_get(np.array([xq, xr], dtype=X.dtype), A, a=[-3., -3.], b=[5., 5.], funcs=[basis, basis])
+        ctx.claim('custom_basis_single_point', ctx.eq(got1, polyval(c, xq) * polyval(c, xr)))
 
 
 def instances(tier):
@@ -259,8 +270,10 @@ def instances(tier):
     for ns, rho in cfg:
         for where in ('inside', 'outside'):
             out.append({'func': 'h_tt_get', 'params': {'ns': ns, 'rho': rho, 'where': where}})
-    for ns, rho, ms in ([([2, 3], 1, [3, 2]), ([3, 2], 2, [4, 3])] if quick else
-                        [([2, 3], 1, [3, 2]), ([3, 2], 2, [4, 3]), ([4, 3], 1, [5, 2]), ([3, 3], 2, [5, 4])]):
+    # (equal old sizes with different new sizes included)
+    for ns, rho, ms in ([([2, 3], 1, [3, 2]), ([3, 2], 2, [4, 3]), ([2, 2], 1, [3, 2]), ([3, 3], 1, [2, 4])] if quick else
+                        [([2, 3], 1, [3, 2]), ([3, 2], 2, [4, 3]), ([4, 3], 1, [5, 2]), ([3, 3], 2, [5, 4]),
+                         ([2, 2], 1, [3, 2]), ([3, 3], 1, [2, 4]), ([2, 2, 2], 1, [2, 3, 4])]):
         out.append({'func': 'h_tt_gets_sum', 'params': {'ns': ns, 'rho': rho, 'ms': ms}})
     for ns, r, kind in ([([3, 2], 2, 'cheb'), ([4, 3], 1, 'cheb'), ([2, 3], 2, 'sin'), ([4, 2], 1, 'sin')] if quick else
                         [([3, 2], 2, 'cheb'), ([4, 3], 2, 'cheb'), ([5, 4], 1, 'cheb'), ([7, 2], 1, 'cheb'),
